@@ -1,9 +1,9 @@
 package rules
 
 import (
-	"go/token"
 	"fmt"
 	"go/constant"
+	"go/token"
 	"go/types"
 	"strings"
 
@@ -119,7 +119,9 @@ func loopPathPhi(f *ssa.Function) *ssa.Phi {
 }
 
 // checkHierarchicalLoop decides the iterative template T_loop(path):
-//   for path != "" { key := path + "." + K; if present(key) { return get(key) }; i := LastIndex(path, "."); if i == -1 { break }; path = path[0:i] }; return get(K)
+//
+//	for path != "" { key := path + "." + K; if present(key) { return get(key) }; i := LastIndex(path, "."); if i == -1 { break }; path = path[0:i] }; return get(K)
+//
 // By induction on the number of components it returns the value at the longest prefix that has one, else the base
 // value — the same function as the recursive template.
 func checkHierarchicalLoop(p *core.Prog, r *core.Report, ds *core.Describer, f *ssa.Function) {
